@@ -247,6 +247,20 @@ def gen_program(rng, nobj, quick):
                 p.objs[oi]["archive"] = ai
     order = [("o", oi) for oi in plain] + [("a", ai) for ai in range(len(p.archives))]
     p.order = rng.shuffle(order)
+    # a third of the programs also link a shared library and refer to its data both through the GOT and directly (the direct
+    # reference of non-PIC code makes the shared-object group set up a copy relocation: one more kind of cross-group request,
+    # which may reach the symbol before or after the plain symbol request of another file)
+    p.shared_vars = []
+    if rng.chance(1, 3):
+        p.shared_vars = [f"wvsv{k}" for k in range(rng.range(1, 3))]
+        for fn in names:
+            f = p.funcs[fn]
+            f["svgot"] = [v for v in p.shared_vars if rng.chance(1, 4)]
+            f["svdir"] = [v for v in p.shared_vars if rng.chance(1, 4)]
+        first = p.funcs[p.entry_calls[0]]
+        v = rng.choice(p.shared_vars)
+        # one function that is certainly kept has both forms in a random order
+        first["svboth"] = (v, rng.chance(1, 2))
     return p
 
 
@@ -263,6 +277,14 @@ def render_obj(p, oi):
             out.append(f"  lea __start_{sn}(%rip),%rax\n  lea __stop_{sn}(%rip),%rdx")
         if f["data"]:
             out.append(f"  lea d_{fn}(%rip),%rax")
+        if f.get("svboth"):
+            v, got_first = f["svboth"]
+            forms = [f"  mov {v}@GOTPCREL(%rip),%rax", f"  mov {v}(%rip),%rax"]
+            out += forms if got_first else forms[::-1]
+        for v in f.get("svgot", []):
+            out.append(f"  mov {v}@GOTPCREL(%rip),%rax")
+        for v in f.get("svdir", []):
+            out.append(f"  mov {v}(%rip),%rax")
         out.append("  ret")
         if f["data"]:
             out.append(f'.section .data.d_{fn},"aw",@progbits\n.globl d_{fn}\nd_{fn}:\n  .quad 1')
@@ -368,6 +390,13 @@ def build_program(p, d):
                 os.unlink(a)
             subprocess.run(["ar", "rc", a] + [objs[oi] for oi in p.archives[idx]], check=True)
             args.append(a)
+    if getattr(p, "shared_vars", None):
+        lo = asm("libsv", "".join(f'.data\n.globl {v}\n.type {v},@object\n.size {v},8\n{v}:\n  .quad {7 + k}\n' for k, v in enumerate(p.shared_vars)))
+        lib = os.path.join(d, "libsv.so")
+        r = subprocess.run(["ld", "-shared", "-o", lib, lo], stdout=subprocess.PIPE, stderr=subprocess.STDOUT, text=True)
+        if r.returncode != 0:
+            raise runner.BuildError("ld -shared failed: " + r.stdout[-300:])
+        args += ["--dynamic-linker=/lib64/ld-linux-x86-64.so.2", "-rpath", d, lib]
     return args
 
 
@@ -593,6 +622,7 @@ def run(ctx):
         ctx.count("objects", str(nobj))
         ctx.count("archives", str(len(prog.archives)))
         ctx.count("start_stop_sets", str(len(prog.setmembers)))
+        ctx.count("shared_library_data_refs", "yes" if prog.shared_vars else "no")
         results = {}   # fpg -> (kept set, first config)
         r2 = rng.fork()
         for si in range(scheds_per):
